@@ -43,6 +43,7 @@ namespace {
 struct Options {
   std::string out;
   std::string root = "/repo";
+  std::string root2;
   std::string fileRe;
   std::string nameRe;
   bool mainOnly = false;
@@ -80,6 +81,14 @@ public:
     Diags.push_back(R);
   }
 };
+
+bool underRoot(const std::string &File) {
+  if (File.rfind(Opt.root, 0) == 0)
+    return true;
+  if (!Opt.root2.empty() && File.rfind(Opt.root2, 0) == 0)
+    return true;
+  return false;
+}
 
 std::string typeStr(QualType T, const ASTContext &Ctx) {
   if (T.isNull())
@@ -208,7 +217,7 @@ public:
     J.attribute("rt", typeStr(FD->getReturnType(), Ctx));
     if (FD->getBeginLoc().isValid()) {
       std::string F = fileOf(FD->getLocation());
-      if (F.rfind(Opt.root, 0) != 0)
+      if (!underRoot(F))
         J.attribute("cext", true);
     }
   }
@@ -821,7 +830,7 @@ public:
   }
 
   bool wanted(const std::string &File, const std::string &QName, SourceLocation L) {
-    if (File.rfind(Opt.root, 0) != 0)
+    if (!underRoot(File))
       return false;
     if (Opt.mainOnly && !SM.isInMainFile(SM.getExpansionLoc(L)))
       return false;
@@ -838,16 +847,26 @@ public:
     if (RD->isLambda())
       return true;
     std::string File = fileOf(RD->getLocation());
-    if (File.rfind(Opt.root, 0) != 0)
+    if (!underRoot(File))
       return true;
     if (ClassSeen.insert(RD).second)
       Classes.push_back(RD);
     return true;
   }
 
+  std::map<std::string, std::pair<std::string, unsigned>> Protos;
+
   bool VisitFunctionDecl(FunctionDecl *FD) {
-    if (!FD->doesThisDeclarationHaveABody())
+    if (!FD->doesThisDeclarationHaveABody()) {
+      // extern "C" prototypes (for the completeness rule of the C interface)
+      if (FD->isExternC() && !FD->isImplicit() && FD->getDeclName().isIdentifier()) {
+        std::string File = fileOf(FD->getLocation());
+        if (underRoot(File))
+          Protos.emplace(FD->getName().str(),
+                         std::make_pair(File, SM.getExpansionLineNumber(FD->getLocation())));
+      }
       return true;
+    }
     if (!FD->isThisDeclarationADefinition())
       return true;
     if (FD->isDefaulted() && !FD->isUserProvided())
@@ -1098,6 +1117,17 @@ public:
     V.emitClasses();
     J.arrayEnd();
     J.attributeEnd();
+    J.attributeBegin("protos");
+    J.arrayBegin();
+    for (auto &P : V.Protos) {
+      J.objectBegin();
+      J.attribute("n", P.first);
+      J.attribute("file", P.second.first);
+      J.attribute("line", P.second.second);
+      J.objectEnd();
+    }
+    J.arrayEnd();
+    J.attributeEnd();
     J.attributeBegin("diags");
     J.arrayBegin();
     for (const DiagRec &D : Diags) {
@@ -1151,6 +1181,8 @@ int main(int argc, const char **argv) {
       Opt.out = argv[++i];
     } else if (A == "--root" && i + 1 < argc) {
       Opt.root = argv[++i];
+    } else if (A == "--root2" && i + 1 < argc) {
+      Opt.root2 = argv[++i];
     } else if (A == "--file-re" && i + 1 < argc) {
       Opt.fileRe = argv[++i];
     } else if (A == "--name-re" && i + 1 < argc) {
